@@ -109,7 +109,7 @@ var c15Methods = []string{"GET", "POST", "PUT", "DELETE", "OPTIONS", "HEAD", "ge
 func c15Queries(lits []string) []string {
 	qs := []string{"", "?", "?x=1"}
 	for _, l := range lits {
-		qs = append(qs, "?"+l, "?x="+l, "?x=1&y="+l, "?"+l+"=1", "?x="+vfQueryEscape(l), "?x=1&"+l)
+		qs = append(qs, "?"+l, "?x="+l, "?x=1&y="+l, "?"+l+"=1", "?x="+vfQueryEscape(l), "?x=1&"+l, "?next=http://h.test"+l, "?cb=app://open"+l)
 	}
 	return qs
 }
